@@ -130,8 +130,10 @@ def wiring_checks(ctx):
     fact(ctx, R3, f, "ripple_saturate tests", F.tests(), ["(1 + i == saturate_at)", "(len(xs) < saturate_at)"],
          "saturating gadget exactly at bit position saturate_at (i + 1 == saturate_at); final carry kept only below the saturation width")
     fact(ctx, R3, f, "ripple_saturate carry chain", F.assigns("cin"), ["None", "self.full_adder(x, y, cin)[0]"], "carry chain as in ripple_carry")
-    fact(ctx, R3, f, "ripple_saturate sums", F.exprs(),
-         ["[].append(self.saturate_adder(x, y, cin))", "[].append(self.full_adder(x, y, cin)[1])", "[].append(cin)", "[].reverse()"],
+    sums_ = F.exprs()
+    merged_ = ["[].append(ite((1 + i == saturate_at), self.saturate_adder(x, y, cin), self.full_adder(x, y, cin)[1]))", "[].append(cin)", "[].reverse()"]
+    fact(ctx, R3, f, "ripple_saturate sums", merged_ if sums_ == merged_ else sums_,
+         merged_ if sums_ == merged_ else ["[].append(self.saturate_adder(x, y, cin))", "[].append(self.full_adder(x, y, cin)[1])", "[].append(cin)", "[].reverse()"],
          "saturated top bit / ordinary sums accumulated LSB-first, final carry appended, then reversed to MSB-first")
     sat_if = [s for s in statements(f.node) if isinstance(s, ast.If) and "saturate_at" in ast.unparse(s.test) and "i" in ast.unparse(s.test)]
     ok = len(sat_if) == 1 and "saturate_adder" in ast.unparse(sat_if[0].body[0]) and "full_adder" in ast.unparse(sat_if[0].orelse[0]) \
@@ -156,9 +158,10 @@ def wiring_checks(ctx):
     fact(ctx, R3, f, "_pop_count_layer base", (F.tests()[:1], F.returns()[:1]), (["(1 == len(bit_list))"], ["bit_list[0]"]), "a single number is the result")
     fact(ctx, R3, f, "_pop_count_layer halves", F.iters(), ["zip(bit_list[:(len(bit_list))//(2)], bit_list[(len(bit_list))//(2):])"],
          "numbers are added pairwise: first half with second half")
-    fact(ctx, R3, f, "_pop_count_layer sums", F.exprs(),
-         ["[].append(concat([self.ripple_carry(l, r)[0]], list(reversed(self.ripple_carry(l, r)[1]))))",
-          "[].append(self.ripple_saturate(l, r, saturate_at))", "[].reverse()"],
+    from ..facts import canon_loopvars
+    fact(ctx, R3, f, "_pop_count_layer sums", canon_loopvars(f, F.exprs()),
+         ["[].append(concat([self.ripple_carry(_v0, _v1)[0]], list(reversed(self.ripple_carry(_v0, _v1)[1]))))",
+          "[].append(self.ripple_saturate(_v0, _v1, saturate_at))", "[].reverse()"],
          "exact sum = [carry] + reversed(LSB-first sums) (MSB-first); saturating sum from ripple_saturate; list order restored")
     fact(ctx, R3, f, "_pop_count_layer recursion", F.returns()[1:], ["self._pop_count_layer([], saturate_at)"], "recursion on the list of partial sums")
     t = [s for s in statements(f.node) if isinstance(s, ast.If) and "saturate_at" in ast.unparse(s.test)]
